@@ -187,7 +187,7 @@ def q_poscar(c, A, ctx):
     return c.to_poscar_string()
 
 
-def _saveload(c, A, ctx, name, with_text=True):
+def _saveload(c, A, ctx, name, with_text=True, save_kw=None, load_kw=None):
     """save() to a file (the same path every time for a given handle, as a
     user overwriting their file would) and load() it back. For .res / POSCAR
     the file's text is part of the answer too; a CIF written from a loaded
@@ -203,15 +203,15 @@ def _saveload(c, A, ctx, name, with_text=True):
         back = os.getcwd()
         os.chdir(ctx["dir"])
         try:
-            c.save(name)
-            loaded = Crystal.load(name)
+            c.save(name, **(save_kw or {}))
+            loaded = Crystal.load(name, **(load_kw or {}))
             text = Path(name).read_text() if with_text else None
         finally:
             os.chdir(back)
     else:
         p = Path(ctx["dir"]) / name if A.get("path_objects") else "%s/%s" % (ctx["dir"], name)
-        c.save(p)
-        loaded = Crystal.load(p)
+        c.save(p, **(save_kw or {}))
+        loaded = Crystal.load(p, **(load_kw or {}))
         text = Path(p).read_text() if with_text else None
     if not with_text:
         return loaded
@@ -220,6 +220,36 @@ def _saveload(c, A, ctx, name, with_text=True):
 
 def q_sl_cif(c, A, ctx):
     return _saveload(c, A, ctx, "x.cif", with_text=False)
+
+
+def q_sl_cif_named(c, A, ctx):
+    # a keyword of the export, the same one every time
+    return _saveload(c, A, ctx, "named.cif", with_text=False, save_kw={"data_block_name": "trial_7"})
+
+
+def q_sl_fmt(c, A, ctx):
+    # format chosen by keyword instead of by the file name
+    return _saveload(c, A, ctx, "y.dat", save_kw={"fmt": "res"}, load_kw={"fmt": "res"})
+
+
+def q_vasp_inputs(c, A, ctx):
+    # module-level exporter that writes a directory of input files
+    import os
+    from pathlib import Path
+    from chmpy.ext.vasp import generate_vasp_inputs
+
+    dest = os.path.join(ctx["dir"], "vasp_in")
+    generate_vasp_inputs(c, Path(dest) if A.get("path_objects") else dest)
+    return {n: Path(dest, n).read_text() for n in sorted(os.listdir(dest))}
+
+
+def q_wolf_q(c, A, ctx):
+    # a function of another module that takes the crystal plus an argument of
+    # its own (explicit charges - the same ones every time)
+    from chmpy.core.wolf import wolf_sum
+
+    n = len(c.asymmetric_unit)
+    return wolf_sum(c, cutoff=min(A["r"], 4.5), charges=np.linspace(-0.4, 0.4, n))
 
 
 def q_sl_res(c, A, ctx):
@@ -362,7 +392,7 @@ KW_QUERIES = {
 }
 # queries that may be asked of a keyword crystal (they never build the bond graph with default arguments)
 KW_SAFE = ["uc_atoms", "slab", "air", "asur", "density", "res", "cartsym", "repr", "accessors", "cif", "cif_data",
-           "gulp", "crystal17", "turbomole", "cif_twin",
+           "gulp", "crystal17", "turbomole", "cif_twin", "sl_cif_named", "sl_fmt", "vasp_inputs",
            "poscar", "sl_cif", "sl_res", "sl_poscar", "sl_contcar"]  # fmt: skip
 
 
@@ -403,6 +433,10 @@ QUERIES = {
     "turbomole": (q_turbomole, "X"),
     "sl_cif": (q_sl_cif, "X"),
     "sl_res": (q_sl_res, "X"),
+    "sl_cif_named": (q_sl_cif_named, "X"),
+    "sl_fmt": (q_sl_fmt, "X"),
+    "vasp_inputs": (q_vasp_inputs, "X"),
+    "wolf_q": (q_wolf_q, "C"),
     "sl_poscar": (q_sl_poscar, "X"),
     "sl_contcar": (q_sl_contcar, "X"),
 }
